@@ -242,7 +242,15 @@ int xor_hd_fragments_needed(xor_code_t *code_desc, int *fragments_to_reconstruct
     /**
      * Add everything to missing_idxs (basically, give up on optimizing).
      */
-    missing_idxs = (int*)malloc(sizeof(int)*(code_desc->k + code_desc->m));
+    /*
+     * Both lists are copied in full (plus the terminator): size the copy by
+     * what the caller passed, not by k + m -- the lists may name every
+     * fragment of the stripe, or the same fragment more than once.
+     */
+    j = 0;
+    for (i = 0; fragments_to_reconstruct[i] > -1; i++) j++;
+    for (i = 0; fragments_to_exclude[i] > -1; i++) j++;
+    missing_idxs = (int*)malloc(sizeof(int)*(j + 1));
     if (NULL == missing_idxs) {
       ret = -1;
       goto out;
